@@ -5,6 +5,8 @@ package interp
 
 import (
 	"fmt"
+	"strconv"
+	"strings"
 
 	"mvdan.cc/sh/v3/syntax"
 )
@@ -15,6 +17,10 @@ type testParser struct {
 	eof bool
 	val string
 	rem []string
+
+	// parens is the number of open parentheses; outside of them,
+	// ")" is an argument like any other.
+	parens int
 
 	err func(err error)
 }
@@ -44,19 +50,23 @@ func (p *testParser) followWord(fval string) *syntax.Word {
 	return w
 }
 
+// classicTest parses the arguments of test and [. Like in Bash, -a binds
+// tighter than -o, both associate to the left, and ! only negates the term
+// that follows it. With pastAndOr set, it parses a single such term.
 func (p *testParser) classicTest(fval string, pastAndOr bool) syntax.TestExpr {
-	var left syntax.TestExpr
-	if pastAndOr {
-		left = p.testExprBase(fval)
-	} else {
-		left = p.classicTest(fval, true)
+	if !pastAndOr {
+		return p.classicAndOr(fval, syntax.OrTest)
 	}
-	if left == nil || p.eof || p.val == ")" {
+	left := p.testExprBase(fval)
+	if left == nil || p.eof || (p.val == ")" && p.parens > 0) {
 		return left
 	}
 	opStr := p.val
 	op := testBinaryOp(p.val)
-	if op == illegalTok {
+	switch op {
+	case syntax.AndTest, syntax.OrTest:
+		return left
+	case illegalTok:
 		p.errf("not a valid test operator: %#q", p.val)
 	}
 	b := &syntax.BinaryTest{
@@ -64,36 +74,155 @@ func (p *testParser) classicTest(fval string, pastAndOr bool) syntax.TestExpr {
 		X:  left,
 	}
 	p.next()
-	switch b.Op {
-	case syntax.AndTest, syntax.OrTest:
-		if b.Y = p.classicTest(opStr, false); b.Y == nil {
-			p.errf("%s must be followed by an expression", opStr)
-		}
-	default:
-		if _, ok := left.(*syntax.Word); !ok {
-			// e.g. [ -b 3 = b ], where "-b 3" was taken as a unary test
-			p.errf("%s must be preceded by a word", opStr)
-		}
-		b.Y = p.followWord(opStr)
+	if _, ok := left.(*syntax.Word); !ok {
+		// e.g. [ -b 3 = b ], where "-b 3" was taken as a unary test
+		p.errf("%s must be preceded by a word", opStr)
 	}
+	b.Y = p.followWord(opStr)
 	return b
 }
 
+// classicAndOr parses a left-associative list of operands joined by op,
+// where the operands of -o are -a lists and those of -a are terms.
+func (p *testParser) classicAndOr(fval string, op syntax.BinTestOperator) syntax.TestExpr {
+	operand := func(fval string) syntax.TestExpr {
+		if op == syntax.OrTest {
+			return p.classicAndOr(fval, syntax.AndTest)
+		}
+		return p.classicTest(fval, true)
+	}
+	left := operand(fval)
+	for left != nil && !p.eof && testBinaryOp(p.val) == op {
+		opStr := p.val
+		b := &syntax.BinaryTest{Op: op, X: left}
+		p.next()
+		if b.Y = operand(opStr); b.Y == nil {
+			p.errf("%s must be followed by an expression", opStr)
+		}
+		left = b
+	}
+	return left
+}
+
+func testWord(val string) *syntax.Word {
+	return &syntax.Word{Parts: []syntax.WordPart{&syntax.Lit{Value: val}}}
+}
+
+// posixTest applies the rules that POSIX gives for up to four arguments,
+// which decide what each argument is from the number of arguments alone;
+// for example, [ "$a" = "$b" ] compares two strings even if $a is "!" or "(".
+// The boolean result is false if the general grammar applies instead,
+// which includes the invalid cases, so that it reports the error.
+func (p *testParser) posixTest(args []string) (syntax.TestExpr, bool) {
+	valid := true
+	isBinary := func(val string) bool {
+		switch testBinaryOp(val) {
+		case illegalTok, syntax.AndTest, syntax.OrTest:
+			return false
+		}
+		return true
+	}
+	two := func(a, b string) syntax.TestExpr {
+		if a == "!" {
+			return &syntax.UnaryTest{Op: syntax.TsNot, X: testWord(b)}
+		}
+		switch op := testUnaryOp(a); op {
+		case illegalTok, syntax.TsNot, syntax.TsParen:
+			valid = false
+			return nil
+		default:
+			return &syntax.UnaryTest{Op: op, X: testWord(b)}
+		}
+	}
+	three := func(a, b, c string) syntax.TestExpr {
+		switch {
+		case isBinary(b), b == "-a", b == "-o":
+			return &syntax.BinaryTest{Op: testBinaryOp(b), X: testWord(a), Y: testWord(c)}
+		case a == "!":
+			return &syntax.UnaryTest{Op: syntax.TsNot, X: two(b, c)}
+		case a == "(" && c == ")":
+			return &syntax.ParenTest{X: testWord(b)}
+		}
+		valid = false
+		return nil
+	}
+	var expr syntax.TestExpr
+	switch len(args) {
+	case 1:
+		expr = testWord(args[0])
+	case 2:
+		expr = two(args[0], args[1])
+	case 3:
+		expr = three(args[0], args[1], args[2])
+	case 4:
+		if args[0] == "!" {
+			expr = &syntax.UnaryTest{Op: syntax.TsNot, X: three(args[1], args[2], args[3])}
+		} else if args[0] == "(" && args[3] == ")" {
+			expr = &syntax.ParenTest{X: two(args[1], args[2])}
+		}
+	}
+	return expr, expr != nil && valid
+}
+
+// checkIntegers reports the operands of integer comparisons which are not
+// integers. Bash evaluates every part of the expression, so it fails even
+// if the result does not depend on the comparison.
+func (p *testParser) checkIntegers(expr syntax.TestExpr) {
+	switch x := expr.(type) {
+	case *syntax.ParenTest:
+		p.checkIntegers(x.X)
+	case *syntax.UnaryTest:
+		p.checkIntegers(x.X)
+	case *syntax.BinaryTest:
+		switch x.Op {
+		case syntax.TsEql, syntax.TsNeq, syntax.TsLeq, syntax.TsGeq, syntax.TsLss, syntax.TsGtr:
+			for _, operand := range []syntax.TestExpr{x.X, x.Y} {
+				w, ok := operand.(*syntax.Word)
+				if !ok {
+					continue
+				}
+				if _, err := strconv.ParseInt(strings.Trim(w.Lit(), " \t"), 10, 64); err != nil {
+					p.errf("%s: integer expression expected", w.Lit())
+					break
+				}
+			}
+		default:
+			p.checkIntegers(x.X)
+			p.checkIntegers(x.Y)
+		}
+	}
+}
+
 func (p *testParser) testExprBase(fval string) syntax.TestExpr {
-	if p.eof || p.val == ")" {
+	if p.eof || (p.val == ")" && p.parens > 0) {
 		return nil
 	}
 	op := testUnaryOp(p.val)
+	if len(p.rem) >= 2 {
+		// With enough arguments left, a binary operator in the second
+		// place wins, so that [ "$a" = "$b" -a ... ] works for any $a.
+		switch testBinaryOp(p.rem[0]) {
+		case illegalTok, syntax.AndTest, syntax.OrTest:
+		default:
+			op = illegalTok
+		}
+	}
 	switch op {
 	case syntax.TsNot:
 		u := &syntax.UnaryTest{Op: op}
 		p.next()
-		u.X = p.classicTest(op.String(), false)
+		if u.X = p.classicTest(op.String(), true); u.X == nil {
+			p.errf("%s must be followed by an expression", op)
+		}
 		return u
 	case syntax.TsParen:
 		pe := &syntax.ParenTest{}
 		p.next()
-		pe.X = p.classicTest(op.String(), false)
+		p.parens++
+		if pe.X = p.classicTest(op.String(), false); pe.X == nil {
+			p.errf("%s must be followed by an expression", op)
+		}
+		p.parens--
 		if p.val != ")" {
 			p.errf("reached %s without matching '(' with ')'", p.val)
 		}
@@ -185,6 +314,10 @@ func testBinaryOp(val string) syntax.BinTestOperator {
 		return syntax.OrTest
 	case "==", "=":
 		return syntax.TsMatch
+	case "<":
+		return syntax.TsBefore
+	case ">":
+		return syntax.TsAfter
 	case "!=":
 		return syntax.TsNoMatch
 	case "-nt":
